@@ -219,8 +219,10 @@ MANIFEST_TEXT = {
     "C02": dict(
         text="TLC enumerates every pipeline of the row-level verbs up to the depth bound over the focus alphabets (BFS, history variable), "
              "the specification predicts the complete table after every step, and every distinct prefix is executed on Polars and on SQLite "
-             "and compared cell by cell with the prediction (an independent row-by-row semantics, so a defect common to both back ends is caught).",
-        note=TRUST, technique="TLA+ spec + TLC exhaustive generation, replay on real code against predicted observations"),
+             "and compared cell by cell with the prediction (an independent row-by-row semantics, so a defect common to both back ends is caught). "
+             "One phase replays with ONE python object per specification expression (an expression kept in a variable and reused across calls). "
+             "TLAPS proves the LIMIT / OFFSET composition and the arrange order laws of the value language for all naturals / integers.",
+        note=TRUST, technique="TLA+ spec + TLC exhaustive generation, replay on real code against predicted observations; TLAPS proofs of value-language laws"),
     "C04": dict(
         text="TLC enumerates group_by / summarize pipelines over the aggregate focus alphabet (every aggregate, filter=, expressions over "
              "aggregates, computed / boolean / nullable keys, empty and single-row inputs, verb contexts before and after); the specification's "
@@ -290,7 +292,7 @@ MANIFEST_TEXT = {
              "(column-column, column-literal, literal-column, nested, case expressions, horizontal functions up to 5 arguments); both back ends "
              "are compared with it cell by cell (cells outside the documented fragment are UNDEF and skipped). The algebraic laws of the value "
              "language (truncating division, Kleene logic, ordering markers) are model-checked separately so that the oracle itself is guarded.",
-        note=TRUST, technique="TLA+ spec + TLC exhaustive generation, replay on real code against predicted observations; TLC-checked algebraic laws of the oracle", engine="functions"),
+        note=TRUST, technique="TLA+ spec + TLC exhaustive generation, replay on real code against predicted observations; TLC-checked and TLAPS-proved algebraic laws of the oracle", engine="functions"),
     "C13": dict(
         text="Overload resolution is specified order-free (unique minimum of summed lexicographic cost over all instantiations) over a catalogue "
              "and cost graph extracted from the code at check time; TLC evaluates it for every operator and every argument tuple over the 48-type "
